@@ -117,8 +117,12 @@ func C04(p *load.Prog, r *report.Report) {
 			if !good {
 				detail = fmt.Sprintf("length is %s, expected %s", ln, wantLen)
 			}
+			nidConst, nidIsConst := nid.IsConst()
 			for k := skip; good && k < 33; k++ {
 				i := k - skip
+				if k >= 1 && nidIsConst && nidConst.Sign() == 0 {
+					break // a path on which the point is the identity: the encoding ends after the first byte
+				}
 				if i >= len(bs) {
 					good, detail = false, "result too short"
 					break
@@ -140,7 +144,7 @@ func C04(p *load.Prog, r *report.Report) {
 				construct = meth + " path " + shortGuards(res)
 			}
 			r.Check(good, "C04.layout", construct, encPos, "[ite(Z=0, 00, 02|sgn0(y_aff))] ‖ BE32(Canon x_aff); 1 byte iff identity", "not the SEC1 compressed encoding of the normal form: "+detail)
-			if good {
+			if good && len(bs) > 0 {
 				r.Sample(map[string]interface{}{"encoder": meth, "length": ln.String(), "byte0": bs[0].String()})
 			}
 		}
